@@ -255,7 +255,8 @@ class Scheduler:
         return c
 
 
-def explore(make_bodies, sched_files, bound, on_execution, opcode_funcs=(), max_executions=None, setup=None, shard=None):
+def explore(make_bodies, sched_files, bound, on_execution, opcode_funcs=(), max_executions=None, setup=None, shard=None,
+            verify_every=200):
     """Enumerate every schedule with at most `bound` preemptions.
     make_bodies() -> (bodies, ctx) builds fresh thread bodies (fresh classes / state) per execution;
     on_execution(sched, ctx) judges one finished execution.  Returns dict of counters."""
@@ -284,6 +285,20 @@ def explore(make_bodies, sched_files, bound, on_execution, opcode_funcs=(), max_
             on_execution(s, ctx)  # the root execution is judged by shard 0 only
         else:
             stats["executions"] -= 1
+        if verify_every and (stats["executions"] + (1 if root and shard and shard[0] != 0 else 0)) % verify_every == 1:
+            # determinism is demonstrated, not assumed: the same choices must reproduce the same trace
+            if setup:
+                setup()
+            b2, _ = make_bodies()
+            s2 = Scheduler(b2, sched_files, prefix=s.choices(), opcode_funcs=opcode_funcs)
+            s2.run()
+            t1 = [(p.running, p.order, p.where) for p in s.points]
+            t2 = [(p.running, p.order, p.where) for p in s2.points]
+            if t1 != t2 or s2.divergence:
+                raise ReplayDivergence(f"schedule {s.choices()[:40]}... did not replay identically ({len(t1)} vs {len(t2)} points)")
+            stats["determinism_replays"] = stats.get("determinism_replays", 0) + 1
+            if setup:
+                setup()
         if max_executions and stats["executions"] >= max_executions:
             stats["capped"] = True
             break
